@@ -136,6 +136,9 @@ type c04Consumer struct {
 	Use   func(x *c04World, art string) bool
 	// IgnoreExpiry: logout reads the name out of an expired cookie (harmless)
 	IgnoreExpiry bool
+	// BindsSubject: the endpoint honours the artefact only for the user of the
+	// session it is presented in (a genuine token of somebody else is refused)
+	BindsSubject bool
 }
 
 func c04Consumers() []c04Consumer {
@@ -187,7 +190,7 @@ func c04Consumers() []c04Consumer {
 			r := x.w.Do(vfReq{Method: "GET", Path: logoutPath, Cookies: []*http.Cookie{{Name: authCookieName, Value: a}}}.Build())
 			return strings.Contains(r.Header.Get("Location"), "?user=")
 		}},
-		{Name: "sendAuthDocument", Kinds: []string{"cli"}, Use: func(x *c04World, a string) bool {
+		{Name: "sendAuthDocument", Kinds: []string{"cli"}, BindsSubject: true, Use: func(x *c04World, a string) bool {
 			r := x.w.Do(vfReq{Method: "GET", Path: "/sendAuthDocument", Cookies: []*http.Cookie{x.aliceCk}, Form: url.Values{"token": {a}, "port": {"12345"}}}.Build())
 			return r.Code/100 == 3 && strings.Contains(r.Header.Get("Location"), "auth_cookie=")
 		}},
@@ -461,6 +464,11 @@ func c04ClaimMuts(x *c04World, art string) []c04Mut {
 		}
 		add("del:"+k, func(m map[string]interface{}) { delete(m, k) })
 	}
+	if _, ok := cl["sub"]; ok {
+		m := cp()
+		m["sub"] = "bob"
+		res = append(res, c04Mut{Name: "sub=other-user", Art: x.c04Resign(hdr, m), Model: "other-subject"})
+	}
 	add("iss=other", func(m map[string]interface{}) { m["iss"] = "https://other.example.com" })
 	add("iss=prefix", func(m map[string]interface{}) { m["iss"] = fmt.Sprint(m["iss"]) + ".evil.com" })
 	add("aud=other", func(m map[string]interface{}) { m["aud"] = []string{"https://other.example.com"} })
@@ -664,7 +672,21 @@ type c04Point struct {
 
 func (x *c04World) judge(c *vfeng.Ctx, cons c04Consumer, kind string, mut c04Mut, report bool) (violated bool, detail string) {
 	before := x.digest()
+	// refusals (4xx/5xx) seen while the consumer ran must not carry freshly signed
+	// session material, neither in the headers that went on the wire nor in the body
+	var refusedWith []string
+	x.w.onResp = func(r *vfResp) {
+		if r.Code < 400 {
+			return
+		}
+		for _, sg := range c06Signed(x.w, r) {
+			if strings.HasPrefix(sg, "jws:keymaster_auth") {
+				refusedWith = append(refusedWith, fmt.Sprintf("%d answer carrying %s", r.Code, sg))
+			}
+		}
+	}
 	got := cons.Use(x, mut.Art)
+	x.w.onResp = nil
 	after := x.digest()
 	if c != nil {
 		c.Eval(1)
@@ -676,6 +698,8 @@ func (x *c04World) judge(c *vfeng.Ctx, cons c04Consumer, kind string, mut c04Mut
 	case "reject":
 	case "dontcare":
 		dontcare = true
+	case "other-subject": // a genuine artefact of another user
+		dontcare = !cons.BindsSubject
 	default: // "claims", "accept-if-valid", "valid"
 		_, cl, _, ok := c04Split(mut.Art)
 		if ok {
@@ -708,6 +732,13 @@ func (x *c04World) judge(c *vfeng.Ctx, cons c04Consumer, kind string, mut c04Mut
 		what := fmt.Sprintf("consumer %s refused the genuine %s artefact (deployment %s)", cons.Name, kind, x.deploy)
 		if report {
 			c.Violate(fmt.Sprintf("C04|genuine-refused|%s|%s", cons.Name, c04KindOf(kind)), what, p)
+		}
+		return true, what
+	}
+	if !got && len(refusedWith) > 0 {
+		what := fmt.Sprintf("consumer %s refused %s/%s with a %s (deployment %s)", cons.Name, kind, mut.Name, refusedWith[0], x.deploy)
+		if report {
+			c.Violate(fmt.Sprintf("C04|side-effect-on-reject|%s|session-material-in-refusal", cons.Name), what, p)
 		}
 		return true, what
 	}
@@ -749,7 +780,7 @@ func init() {
 	vfRegister(&vfeng.Check{
 		ID:    "C04",
 		Level: "model_checking",
-		Rule:  "two sibling servers without configured host_identity that trust each other's keys: session, CLI and storage artefacts minted by one are presented to the other; exhaustive products on the real consumers, for 4 deployments (RSA, RSA+Ed25519, ECDSA primary, RSA+extra trusted key): full producer(8) x consumer(14) matrix with artefacts produced by the server's own code paths; per artefact every single-claim removal/alteration re-signed with the real key, 20+ key/algorithm substitutions (foreign keys, embedded jwk, real kid, none, HS256/384/512 keyed with the public key in PEM/DER/SSH/modulus form, crit), and every single-byte substitution (2 values), every truncation length and every segment deletion of the compact form, delivered to the matching consumers; oracle: accept iff signature valid under a trusted key, kind matches, inside validity, issuer+audience name this server (session/CLI/storage); reject => no Set-Cookie/DB/map change",
+		Rule:  "two sibling servers without configured host_identity that trust each other's keys: session, CLI and storage artefacts minted by one are presented to the other; exhaustive products on the real consumers, for 4 deployments (RSA, RSA+Ed25519, ECDSA primary, RSA+extra trusted key): full producer(8) x consumer(14) matrix with artefacts produced by the server's own code paths; per artefact every single-claim removal/alteration re-signed with the real key, 20+ key/algorithm substitutions (foreign keys, embedded jwk, real kid, none, HS256/384/512 keyed with the public key in PEM/DER/SSH/modulus form, crit), and every single-byte substitution (2 values), every truncation length and every segment deletion of the compact form, delivered to the matching consumers; oracle: accept iff signature valid under a trusted key, kind matches, inside validity, issuer+audience name this server (session/CLI/storage); reject => no Set-Cookie/DB/map change and no freshly signed session token in a 4xx/5xx answer (wire headers or body); a genuine artefact of another user presented where the endpoint binds it to the session's user is a rejection too",
 		Assumptions: []string{"an alteration is a change of the decoded header/payload/signature bytes", "claims whose change yields another legitimate token when re-signed with the real key (sub, level, data...) are not mutations", "tokens signed with the real key under another algorithm, exp==now, and audiences naming this server second are observed, not judged"},
 		Shards: func(tier string) int { return 16 },
 		Run: func(c *vfeng.Ctx) {
